@@ -1,7 +1,7 @@
 (* C19 — model M, part 2: a session (the user's variables, constants, functions and macros of the
    common-lisp-user package), the interpreter of the definition forms that build it (pkg/cl/defvar.go,
    defparameter.go, defconstant.go, defun.go, defmacro.go, setq through Scope.Set), the snapshot writer
-   (pkg/gi/snapshot.go: appendSnapshotConstants, appendSnapshotVars with appendDefVar / appendSetq / ppValue,
+   (pkg/gi/snapshot.go with repo_fixes/C19-11..16: appendSnapshotConstants, appendSnapshotVars with appendDefVar / appendSetq / ppValue,
    appendSnapshotFunctions with FuncInfo.LoadForm funcinfo.go:81-116) and the loader, which is the same interpreter
    run over the snapshot's forms one by one.  Executable definitions only. *)
 From Coq Require Import List String ZArith Bool Ascii.
@@ -242,34 +242,58 @@ Definition load (forms : list obj) : session := fst (load_forms empty_session fo
 
 (* ---- the snapshot writer ---------------------------------------------------------------------------- *)
 
-(* snapshot.go:254 ppValue and what pp.buildNode makes of the value: a non-empty list is quoted; a hash table and
-   a lambda are written as their load forms; everything else, symbols included, is written as it is *)
-(* snapshot.go ppInstance: a flavor instance is written as (let ((inst (make-instance 'f))) (setf (slot-value inst 'v)
-   VALUE) ... inst) with every instance variable (sorted by name), and every VALUE goes through ppValue again (lists
-   quoted, nested instances as nested forms, flavors as find-flavor forms); a flavor is written (find-flavor "name") *)
+(* snapshot.go isLiteral (repo_fixes/C19-14): what may stand inside a quote *)
+Fixpoint is_literal (v : obj) : bool :=
+  match v with
+  | Nil | T | Fix _ | Big _ | Atom _ _ | Str _ | Sym _ => true
+  | L xs => forallb is_literal xs
+  | Dot xs tl => forallb is_literal xs && is_literal tl
+  | Vec xs _ _ _ => forallb is_literal xs
+  | _ => false
+  end.
+
+(* snapshot.go ppValue and what pp.buildNode makes of the value (the code with repo_fixes/C19-11 and C19-14): a symbol
+   that is not a keyword is quoted; a non-empty list of literals is quoted, any other proper list is built with (list
+   ...) from its elements written by ppValue again, any other dotted list is written as its load form; a hash table and
+   a lambda are written as their load forms; everything else is written as it is.
+   snapshot.go ppInstance: a flavor instance is written as (let ((inst (make-instance 'f))) (setf (slot-value inst 'v)
+   VALUE) ... inst) with every instance variable (sorted by name), every VALUE through ppValue again; a flavor is
+   written (find-flavor "name") *)
 Fixpoint pp_value (v : obj) : res obj :=
   match v with
-  | L _ | Dot _ _ => Ok (quote v)
+  | L xs =>
+      if forallb is_literal xs then Ok (quote v)
+      else bind ((fix go (l : list obj) : res (list obj) :=
+                    match l with
+                    | [] => Ok []
+                    | a :: r => bind (pp_value a) (fun b => bind (go r) (fun bs => Ok (b :: bs)))
+                    end) xs)
+                (fun fs => Ok (L (Sym "list" :: fs)))
+  | Dot _ _ => if is_literal v then Ok (quote v) else load_form v
+  | Sym s => if is_keyword s then Ok v else Ok (quote v)
   | Hash _ | Lam _ _ _ => load_form v
   | Inst f slots =>
       bind ((fix go (l : list (string * obj)) : res (list obj) :=
                match l with
                | [] => Ok []
                | (k, w) :: r =>
-                   bind (pp_value w) (fun fw => bind (go r) (fun fs =>
-                     Ok (L [Sym "setf"; L [Sym "slot-value"; Sym "inst"; quote (Sym k)]; fw] :: fs)))
+                   bind (pp_value w) (fun fw => bind (go r) (fun fs => Ok (setf_slot k fw :: fs)))
                end) slots)
-           (fun setfs => Ok (L ([Sym "let"; L [L [Sym "inst"; L [Sym "make-instance"; quote (Sym f)]]]] ++ setfs ++ [Sym "inst"])))
+           (fun setfs => Ok (inst_let f setfs))
   | Flv n _ _ _ _ _ => Ok (L [Sym "find-flavor"; Str n])
   | Opaque _ => Err ENotReadable
   | _ => Ok v
   end.
 
-(* flavor.go:473 Flavor.LoadForm for a flavor without components: (defflavor name (v (w default) ...) () options...);
+(* flavor.go Flavor.LoadForm for a flavor without components: (defflavor name (v (w default) ...) () options...);
    the options are written only when the flavor has instance variables, in the order inittable, gettable, settable,
-   documentation; the default values are written as they are (evaluated, unquoted) *)
+   documentation; a default value is written as the form LoadFormOf gives for it (repo_fixes/C19-19) *)
 Definition flavor_form (n : string) (ivars : list (string * obj)) (init get set : bool) (doc : string) : obj :=
-  L ([Sym "defflavor"; Sym n; mkL (map (fun kv => match snd kv with Nil => Sym (fst kv) | d => L [Sym (fst kv); d] end) ivars); Nil]
+  L ([Sym "defflavor"; Sym n;
+      mkL (map (fun kv => match snd kv with
+                          | Nil => Sym (fst kv)
+                          | d => match elem_form d with Ok f => L [Sym (fst kv); f] | Err _ => L [Sym (fst kv); d] end
+                          end) ivars); Nil]
      ++ (if init && negb (match ivars with [] => true | _ => false end) then [Sym ":inittable-instance-variables"] else [])
      ++ (if get && negb (match ivars with [] => true | _ => false end) then [Sym ":gettable-instance-variables"] else [])
      ++ (if set && negb (match ivars with [] => true | _ => false end) then [Sym ":settable-instance-variables"] else [])
@@ -280,10 +304,14 @@ Definition flavor_forms (kv : string * vrec) : list obj :=
   | _ => []
   end.
 
+(* the value of a constant is written by ppValue like that of a variable (repo_fixes/C19-12) *)
 Definition const_forms (kv : string * vrec) : list obj :=
   match kv with
   | (n, mkV (Some v) d true) =>
-      [L ([Sym "defconstant"; Sym (qual n); v] ++ (if (d =? "")%string then [] else [Str d]))]
+      match pp_value v with
+      | Ok f => [L ([Sym "defconstant"; Sym (qual n); f] ++ (if (d =? "")%string then [] else [Str d]))]
+      | Err _ => []
+      end
   | _ => []
   end.
 Definition var_forms (kv : string * vrec) : list obj :=
@@ -295,7 +323,7 @@ Definition var_forms (kv : string * vrec) : list obj :=
                      | Ok f => [L [Sym "setq"; Sym (qual n); f]]
                      | Err _ => []              (* appendSetq recovers and writes nothing *)
                      end
-         | None => [L [Sym "setq"; Sym (qual n); Sym "<unbound>"; Sym "0x00"]]   (* how the unbound marker is printed *)
+         | None => []              (* declared without a value: the defvar is all there is (repo_fixes/C19-13) *)
          end
   | _ => []
   end.
@@ -305,10 +333,14 @@ Definition fun_form (kv : string * frec) : obj :=
       L ([Sym (if macro then "defmacro" else "defun"); Sym n; mkL ll] ++ (if (d =? "")%string then [] else [Str d]) ++ body)
   end.
 
-(* pkg/gi/snapshot.go AppendSnapshot: constants, flavors, variables, functions *)
+(* pkg/gi/snapshot.go AppendSnapshot: constants, flavors (by name; components first, which the flavors of the model do
+   not have: repo_fixes/C19-20), variables, then the macros and after them the functions (repo_fixes/C19-16) *)
+Definition is_macro (kv : string * frec) : bool := f_macro (snd kv).
+Definition funs_order (l : list (string * frec)) : list (string * frec) :=
+  filter is_macro l ++ filter (fun kv => negb (is_macro kv)) l.
 Definition snapshot (s : session) : list obj :=
   flat_map const_forms (sort_by (s_vars s)) ++ flat_map flavor_forms (sort_by (s_vars s))
-  ++ flat_map var_forms (sort_by (s_vars s)) ++ map fun_form (sort_by (s_funs s)).
+  ++ flat_map var_forms (sort_by (s_vars s)) ++ map fun_form (funs_order (sort_by (s_funs s))).
 
 (* the session rebuilt from its snapshot, and the snapshot of that *)
 Definition reload_session (s : session) : session := load (snapshot s).
